@@ -536,8 +536,21 @@ func AuthResponseToken(w http.ResponseWriter, r *http.Request, authReq AuthReque
 		return
 	}
 
+	var sessionState string
+	authRequestSessionState, ok := authReq.(AuthRequestSessionState)
+	if ok {
+		sessionState = authRequestSessionState.GetSessionState()
+	}
+	tokenResponse := struct {
+		*oidc.AccessTokenResponse
+		SessionState string `schema:"session_state,omitempty"`
+	}{
+		AccessTokenResponse: resp,
+		SessionState:        sessionState,
+	}
+
 	if authReq.GetResponseMode() == oidc.ResponseModeFormPost {
-		err := AuthResponseFormPost(w, authReq.GetRedirectURI(), resp, authorizer.Encoder())
+		err := AuthResponseFormPost(w, authReq.GetRedirectURI(), &tokenResponse, authorizer.Encoder())
 		if err != nil {
 			AuthRequestError(w, r, authReq, err, authorizer)
 			return
@@ -546,7 +559,7 @@ func AuthResponseToken(w http.ResponseWriter, r *http.Request, authReq AuthReque
 		return
 	}
 
-	callback, err := AuthResponseURL(authReq.GetRedirectURI(), authReq.GetResponseType(), authReq.GetResponseMode(), resp, authorizer.Encoder())
+	callback, err := AuthResponseURL(authReq.GetRedirectURI(), authReq.GetResponseType(), authReq.GetResponseMode(), &tokenResponse, authorizer.Encoder())
 	if err != nil {
 		AuthRequestError(w, r, authReq, err, authorizer)
 		return
